@@ -507,6 +507,7 @@ func units(string) []engine.Unit {
 		})},
 		{Name: "associations", Run: finish(associations)},
 		{Name: "set-collators", Run: finish(setCollators)},
+		{Name: "set-collators-with-a-source", Run: finish(setCollatorSources)},
 		{Name: "source-form-repeated", Run: finish(sourceRepeat)},
 	}
 	return us
